@@ -52,6 +52,7 @@ type KnownEntry struct {
 	State int // 0 none, 1 header-derived, 2 full
 	Body  bool
 	Supp  bool
+	Good  bool // the stored body is the genuine block (not a same-id twin)
 }
 
 // Obs is what is observed after a call.
@@ -64,6 +65,7 @@ type Obs struct {
 	Known    []KnownEntry
 	MinReorg int
 	TipState []byte
+	AboveTip int // number of heights above the tip for which BestIndex still answers
 }
 
 // A Sim is a real manager over a store, fed from a tree.
@@ -92,6 +94,14 @@ func NewSim(t *chaingen.Tree, db chain.DB) *Sim {
 		}
 	}
 	return s
+}
+
+func encBlock(b types.Block) []byte {
+	var buf bytes.Buffer
+	e := types.NewEncoder(&buf)
+	types.V2Block(b).EncodeTo(e)
+	e.Flush()
+	return buf.Bytes()
 }
 
 // EncState encodes a consensus state.
@@ -161,6 +171,9 @@ func (s *Sim) Observe(o *Obs) {
 	}
 	o.Known = nil
 	for _, n := range s.T.Nodes {
+		if n.TwinOf != nil {
+			continue // twins share the id of their genuine node
+		}
 		var k KnownEntry
 		k.ID = n.Idx
 		if cs, ok := s.Store.State(n.ID); ok {
@@ -169,9 +182,10 @@ func (s *Sim) Observe(o *Obs) {
 				k.State = 2
 			}
 		}
-		_, bs, ok := s.Store.Block(n.ID)
+		sb, bs, ok := s.Store.Block(n.ID)
 		k.Body = ok
 		k.Supp = bs != nil
+		k.Good = ok && bytes.Equal(encBlock(sb), encBlock(n.Block))
 		if _, hok := s.Store.Header(n.ID); !hok && (k.State != 0 || k.Body) {
 			k.State += 10 // header missing although something is stored: never expected
 		}
@@ -186,6 +200,12 @@ func (s *Sim) Observe(o *Obs) {
 		o.MinReorg = n.Idx
 	}
 	o.TipState = encState(s.CM.TipState())
+	o.AboveTip = 0
+	for h := tip.Height + 1; h <= tip.Height+uint64(len(s.T.Nodes))+1; h++ {
+		if _, ok := s.CM.BestIndex(h); ok {
+			o.AboveTip++
+		}
+	}
 }
 
 // Heavier is State.SufficientlyHeavierThan on the labels.
@@ -241,7 +261,7 @@ func GenPlan(r *rng.R, t *chaingen.Tree, prunes bool) []Op {
 			ok := x.ChainValid()
 			var ids []int
 			for _, y := range p[from:] {
-				if y.Block.V2 == nil || y.Height < t.Env.Net.HardforkV2.RequireHeight {
+				if y.Block.V2 == nil || y.Height < t.Env.Net.HardforkV2.RequireHeight || y.TwinOf != nil {
 					ok = false
 				}
 				ids = append(ids, y.Idx)
@@ -291,6 +311,9 @@ func FinalFlush(t *chaingen.Tree) []Op {
 func CoqUniverse(t *chaingen.Tree) string {
 	var ents []string
 	for _, n := range t.Nodes {
+		if n.TwinOf != nil {
+			continue
+		}
 		p := 0
 		if n.Parent != nil {
 			p = n.Parent.Idx
@@ -309,8 +332,8 @@ func nlist(xs []int) string {
 	return "[" + strings.Join(s, "; ") + "]"
 }
 
-// CoqOp renders an op.
-func CoqOp(o Op) string {
+// CoqOp renders an op. Histories that submit same-id twins are not rendered (HasTwin).
+func CoqOp(t *chaingen.Tree, o Op) string {
 	switch o.Kind {
 	case "add":
 		return "AddBlocks " + nlist(o.Nodes)
@@ -346,7 +369,21 @@ func CoqObs(o Obs) string {
 func CoqCase(t *chaingen.Tree, plan []Op, obs []Obs) string {
 	var hs []string
 	for i := range plan {
-		hs = append(hs, "("+CoqOp(plan[i])+", "+CoqObs(obs[i])+")")
+		hs = append(hs, "("+CoqOp(t, plan[i])+", "+CoqObs(obs[i])+")")
 	}
 	return "mk_case " + CoqUniverse(t) + "\n  [" + strings.Join(hs, ";\n   ") + "]"
+}
+
+// HasTwin reports whether the plan submits a same-id twin; the Coq manager model
+// assumes that a block id determines its body, so such histories are checked by
+// the monitors only.
+func HasTwin(t *chaingen.Tree, plan []Op) bool {
+	for _, op := range plan {
+		for _, x := range op.Nodes {
+			if t.Nodes[x].TwinOf != nil {
+				return true
+			}
+		}
+	}
+	return false
 }
